@@ -5,7 +5,7 @@ P=$(realpath "$1"); ID=$2; TIER=${3:-quick}
 cd /repo || exit 9
 if ! git diff --quiet; then echo "/repo has uncommitted changes"; exit 9; fi
 if ! git apply --3way "$P" 2>/tmp/apply.err; then
-  if ! patch -p1 --dry-run < "$P" >/dev/null 2>&1; then echo "PATCH DOES NOT APPLY: $(head -3 /tmp/apply.err)"; git checkout -q -- . ; exit 8; fi
+  if ! patch -p1 --dry-run < "$P" >/dev/null 2>&1; then echo "PATCH DOES NOT APPLY: $(head -3 /tmp/apply.err)"; git reset -q; git checkout -q -- . ; exit 8; fi
   patch -p1 -s < "$P"
 fi
 cd /verif
